@@ -271,14 +271,20 @@ theorem pad2 (x : Nat) (hx : x < 100) : ∃ a b, padZero 2 (dec x) = [a, b] := b
   match h : padZero 2 (dec x), h2 with
   | [a, b], _ => exact ⟨a, b, rfl⟩
 
-end C06Hdr
-
-/-- instants with a 10-character `%010d` rendering and zones that are whole minutes within ±99:59
-    round-trip through the 16-byte time field -/
-theorem time_roundtrip (sec zoneMin : Int) (hs : -999999999 ≤ sec ∧ sec < 10000000000)
-    (hz : -6000 < zoneMin ∧ zoneMin < 6000) :
+/-- shape of the written time field and what `readTime` computes from it, for any zone whose hours
+    still fit two digits -/
+theorem time_shape (sec zoneMin : Int) (hs : -999999999 ≤ sec ∧ sec < 10000000000)
+    (hz : zoneMin.natAbs < 6000) :
     (encodeTime sec (zoneMin * 60)).length = 16 ∧
-    readTime (encodeTime sec (zoneMin * 60)) = .ok (some (sec, zoneMin * 60)) := by
+    readTime (encodeTime sec (zoneMin * 60)) =
+      (match (if zoneMin.natAbs / 60 > 24 || zoneMin.natAbs % 60 > 60 then
+                (.err "time-zone" : Res (Int × Int))
+              else if zoneMin < 0 then
+                .ok (sec, -(((zoneMin.natAbs / 60 * 60 + zoneMin.natAbs % 60) * 60 : Nat) : Int))
+              else .ok (sec, ((zoneMin.natAbs / 60 * 60 + zoneMin.natAbs % 60) * 60 : Nat))) with
+        | .ok t => .ok (some t)
+        | .err e => .err e
+        | .panic p => .panic p) := by
   have hF := fmt010_length sec hs
   have hP := parseInt10_fmt010 sec
   obtain ⟨h1, h2, hH⟩ := pad2 (zoneMin.natAbs / 60) (by omega)
@@ -305,9 +311,24 @@ theorem time_roundtrip (sec zoneMin : Int) (hs : -999999999 ≤ sec ∧ sec < 10
     rw [henc, show 11 = F.length + 1 by omega, List.drop_append]
     simp
   simp only [readTime, hall, decodeTime, hlen, htake, hdrop, hP, hhh, hmm]
+  by_cases hg : 24 < zoneMin.natAbs / 60 ∨ 60 < zoneMin.natAbs % 60 <;>
+    by_cases hneg : zoneMin < 0 <;> simp [hneg, hg]
+
+end C06Hdr
+
+/-- instants with a 10-character `%010d` rendering and zones that are whole minutes within ±99:59
+    round-trip through the 16-byte time field -/
+theorem time_roundtrip (sec zoneMin : Int) (hs : -999999999 ≤ sec ∧ sec < 10000000000)
+    (hz : -1500 < zoneMin ∧ zoneMin < 1500) :
+    (encodeTime sec (zoneMin * 60)).length = 16 ∧
+    readTime (encodeTime sec (zoneMin * 60)) = .ok (some (sec, zoneMin * 60)) := by
+  have hg : ¬ (24 < zoneMin.natAbs / 60 ∨ 60 < zoneMin.natAbs % 60) := by omega
+  obtain ⟨hlen, hread⟩ := time_shape sec zoneMin hs (by omega)
+  refine ⟨hlen, ?_⟩
+  rw [hread]
   by_cases hneg : zoneMin < 0
-  · simp [hneg]; omega
-  · simp [hneg]; omega
+  · simp [hneg, hg]; omega
+  · simp [hneg, hg]; omega
 
 /-- everything else is refused at write time (with the guard) -/
 theorem time_out_of_range_refused (sec z : Int) (hs : sec < -999999999 ∨ 10000000000 ≤ sec) :
@@ -328,5 +349,22 @@ theorem time_out_of_range_refused (sec z : Int) (hs : sec < -999999999 ∨ 10000
 
 theorem time_zero_roundtrip : ∃ b, writeTime true none = .ok b ∧ readTime b = .ok none :=
   ⟨_, rfl, by decide⟩
+
+end Wrgl
+
+
+namespace Wrgl
+
+/-- a zone offset of 25 hours or more is written (the text still has 16 bytes) but cannot be read
+    back: `time.Parse("-0700", …)` refuses the hour -/
+theorem time_zone_over_24h_unreadable (sec zoneMin : Int) (hs : -999999999 ≤ sec ∧ sec < 10000000000)
+    (hz : 1500 ≤ zoneMin ∧ zoneMin < 6000) :
+    (encodeTime sec (zoneMin * 60)).length = 16 ∧
+    readTime (encodeTime sec (zoneMin * 60)) = .err "time-zone" := by
+  have hg : 24 < zoneMin.natAbs / 60 := by omega
+  obtain ⟨hlen, hread⟩ := C06Hdr.time_shape sec zoneMin hs (by omega)
+  refine ⟨hlen, ?_⟩
+  rw [hread]
+  simp [hg]
 
 end Wrgl
